@@ -211,6 +211,19 @@ func c19Apply(e *Env, o c19Op) string {
 			p.MintDecrease = 6 + o.N%3
 			e.App.MintKeeper.SetParams(e.Ctx, p)
 		})
+	// parameter values at the edge of what each parameter's validator admits (what a governance change can store):
+	// written through the subspace one key at a time, exactly as a ParameterChangeProposal does
+	case "params.Edge":
+		return direct(func() {
+			p := e.App.MintKeeper.GetParams(e.Ctx)
+			p.MintDenom = []string{"", "stake", "ujkl", " "}[o.N%4]
+			p.DevGrantsRatio, p.StakerRatio = 8-o.N%3, 80+o.N%3
+			e.App.MintKeeper.SetParams(e.Ctx, p)
+			sp := sk.GetParams(e.Ctx)
+			sp.ProofWindow, sp.CheckWindow, sp.ChunkSize = 1+o.N%7, 1+o.N%5, 1+o.N%4096
+			sp.PolRatio, sp.ReferralCommission = o.N%100, o.N%50
+			sk.SetParams(e.Ctx, sp)
+		})
 	}
 	return "unknown-op"
 }
@@ -667,6 +680,9 @@ func c19RandomHistory(p *PRNG, k int) c19History {
 	add(c19Op{Op: "rns.Params", B: acct()})
 	add(c19Op{Op: "oracle.Params", B: acct()})
 	add(c19Op{Op: "jklmint.Params", N: p.I64n(1000)})
+	if k%2 == 1 {
+		add(c19Op{Op: "params.Edge", N: int64(k/2) + 4*p.I64n(50)})
+	}
 	for _, a := range []int{1, 2, 3} {
 		add(c19Op{Op: "storage.InitProvider", A: a, N: p.I64n(1000)})
 	}
